@@ -23,6 +23,8 @@ def gen(tier, seed):
                                  fixed_mode=rnd.choice(['first', 'some', 'landmark']), fix_first=rnd.random() < 0.6)
                 if rnd.random() < 0.6:
                     c, _ = GC.permute(c, rnd)
+                if rnd.random() < 0.15:
+                    c = GC.far_vertex(c, rnd)          # a badly initialised point: steps of several thousand units
                 cases.append(c)
     # mixed dimensionality: an SE(2) and an SE(3) component (and R^n components) in one graph
     for _ in range(60 if thorough else 5):
